@@ -1,8 +1,42 @@
-import Pun.Model.Proto
+import Pun.Drv.PBoxCommon
+import Pun.Model.PBoxNum
 namespace Pun.Drv.C06
-open Pun
+open Pun Pun.PBox Pun.Drv.PBoxCommon
+
+def parseKind : String → Option CKind
+  | "int" => some .pyInt | "float" => some .pyFloat | "npf" => some .npFloat | "npi" => some .npInt
+  | _ => none
+
+def showOpt : Option (Except Err PB) → String
+  | some r => showPB r
+  | none => "unmodelled"
 
 def handle : List String → String
-  | _ => "bad-op"
+  | ["numk", steps, kind, op, l, r, c] =>
+    match parseNat steps, parseKind kind, parseOp op, parsePB l r, parseRat c with
+    | some n, some k, some o, some x, some c => showPB (numRightK n k o x c)
+    | _, _, _, _, _ => "bad-op"
+  | ["rnumk", steps, kind, op, c, l, r] =>
+    match parseNat steps, parseKind kind, parseOp op, parseRat c, parsePB l r with
+    | some n, some k, some o, some c, some x => showPB (numLeftK n k o c x)
+    | _, _, _, _, _ => "bad-op"
+  | ["un", steps, f, l, r, fl, fr] =>
+    match parseNat steps, parsePB l r, parsePB fl fr with
+    | some n, some x, some v =>
+      match f with
+      | "exp" => showPB (expP n x v.left v.right)
+      | "log" => showPB (logP n x v.left v.right)
+      | "sqrt" => showPB (sqrtP n x v.left v.right)
+      | _ => "bad-op"
+    | _, _, _ => "bad-op"
+  | ["pown", steps, l, r, k] =>
+    match parseNat steps, parsePB l r, parseNat k with
+    | some n, some x, some k => showOpt (powNat n x k)
+    | _, _, _ => "bad-op"
+  | ["poww", steps, l, r, fl, fr] =>
+    match parseNat steps, parsePB l r, parsePB fl fr with
+    | some n, some x, some v => showOpt (powW n x v.left v.right)
+    | _, _, _ => "bad-op"
+  | args => Pun.Drv.PBoxCommon.handle args
 
 end Pun.Drv.C06
